@@ -68,6 +68,7 @@ def check_feature(obj, f, X, y, kind, vals, viol, raw_vals=None):
         allb = [m for l in leaders for m in order.content[l] if not space.is_nan_leader(m)]
         P = probes(allb, train)
         frame = pd.DataFrame({c: (pd.Series(P, dtype=float) if c == raw else pd.Series([X[c].iloc[0]] * len(P), dtype=X[c].dtype)) for c in X.columns})
+        frame.index = [10 * (len(P) - i) for i in range(len(P))]  # any unique index: labels follow the rows, not the index labels
         try:
             out = obj.transform(frame)[f].tolist()
         except Exception as exc:  # noqa
